@@ -302,83 +302,105 @@ func c03r4(r *R) {
 	r.need(m != nil, "Marshal not found")
 	ws := marshalWrites(c, m)
 	o := r.Ob("C03.R4", "four-parts:"+funcName(m)).At(m.Pos())
-	pipes := map[ssa.Instruction]int{}
+	// every write, as atoms (see outlang.go)
+	atomsOf := map[ssa.Instruction][]olAtom{}
+	var atoms []olAtom
 	for _, w := range ws {
-		if strings.HasPrefix(w.Text, "?") {
+		var as []olAtom
+		switch {
+		case strings.HasPrefix(w.Text, "?"):
 			o.AtI(w.I).Fail("output write of unknown shape: %s", w.Text)
+			as = []olAtom{{"?write", w.I}}
+		case w.Byte != "":
+			as = []olAtom{{"byte(" + w.Byte + ")", w.I}}
+		case w.Const:
+			for k := 0; k < len(w.Text); k++ {
+				as = append(as, olAtom{"'" + w.Text[k:k+1] + "'", w.I})
+			}
+		default:
+			as = formatAtoms(w.I, w.Text, w.Args)
 		}
-		if n := strings.Count(w.Text, "|"); n > 0 {
-			pipes[w.I] = n
-			o.AtI(w.I)
+		for _, a := range as {
+			o.AtI(w.I).Check(!strings.HasPrefix(a.Sym, "?fmt"), "format %q uses something else than %%d / %%02d: %s", w.Text, a.Sym)
 		}
+		atomsOf[w.I] = as
+		atoms = append(atoms, as...)
 	}
-	res := countOnPaths(m, func(i ssa.Instruction) int { return pipes[i] })
-	o.Check(res.Min == 3 && res.Max == 3 && !res.InLoop, "number of '|' separators written per call: min=%d max=%d inLoop=%v (want exactly 3 on every path, none in a loop)", res.Min, res.Max, res.InLoop)
-	// no '|' can come from data: WriteByte operand is a header-name byte (validated pseudo-header), Sprintf verbs are numeric
-	for _, w := range ws {
-		if !w.Const && w.Byte == "" {
-			verbs := strings.Count(w.Text, "%")
-			o.Check(verbs == strings.Count(w.Text, "%d")+strings.Count(w.Text, "%02d"), "format %q uses a non-numeric verb", w.Text)
+	idx := "(1 + phi((1 + phi@)|-1))"
+	minE := "phi(builtin.len(p0.Priorities)|p1)"
+	pIdx := "p0.Priorities[" + idx + "]"
+	name := "p0.Headers[" + idx + "].Name"
+	symSId, symSVal := "num(p0.Settings["+idx+"].Id)", "num(p0.Settings["+idx+"].Val)"
+	symWU := "num02(p0.WindowUpdateIncrement)"
+	symPSid, symPDep, symPW := "num("+pIdx+".StreamId)", "num("+pIdx+".StreamDep)", "num((1 + "+pIdx+".Weight))"
+	symH := "byte(" + name + "[1])"
+	// the shape S[;S…]|WU|P[,P…]#|PS[,PS…] as languages over atoms
+	build := func(exact bool) *olNFA {
+		n := newNFA()
+		list := func(sep string, item func() olFrag) olFrag {
+			if exact {
+				// item (sep item)*, or nothing
+				return n.opt(n.seq(item(), n.star(n.seq(n.lits(sep), item()))))
+			}
+			// condition-blind reading of `for … { if i != 0 { sep }; item }`
+			return n.star(n.seq(n.opt(n.lits(sep)), item()))
 		}
+		setting := func() olFrag { return n.seq(n.sym(symSId), n.lits(":"), n.sym(symSVal)) }
+		prio := func() olFrag {
+			return n.seq(n.sym(symPSid), n.lits(":"), n.alt(n.lits("1"), n.lits("0")), n.lits(":"), n.sym(symPDep), n.lits(":"), n.sym(symPW))
+		}
+		hdr := func() olFrag { return n.sym(symH) }
+		var prios olFrag
+		if exact {
+			prios = n.alt(n.lits("0"), n.seq(prio(), n.star(n.seq(n.lits(","), prio()))))
+		} else {
+			prios = n.alt(n.lits("0"), list(",", prio))
+		}
+		return n.finish(n.seq(list(";", setting), n.lits("|"), n.sym(symWU), n.lits("|"), prios, n.lits("|"), list(",", hdr)))
 	}
-	var find = func(pred func(bufWrite) bool) []bufWrite {
-		var out []bufWrite
-		for _, w := range ws {
-			if pred(w) {
-				out = append(out, w)
+	got := cfgNFA(m, func(i ssa.Instruction) []olAtom { return atomsOf[i] })
+	if ok, word := olIncluded(got, build(false)); !ok {
+		o.Fail("Marshal can output the sequence %s, which is not of the form S[;S…]|WU|P[,P…]|PS[,PS…] with S=id:value, WU=%%02d of the window increment, P=stream:excl:dep:weight+1 or 0, PS=second byte of a pseudo-header name", strings.Join(word, " "))
+	}
+	if ok, word := olIncluded(build(true), got); !ok {
+		o.Fail("no path through Marshal outputs the sequence %s, which the format requires to be producible", strings.Join(word, " "))
+	}
+	// conditions of individual atoms
+	find := func(sym string) []olAtom {
+		var out []olAtom
+		for _, a := range atoms {
+			if a.Sym == sym {
+				out = append(out, a)
 			}
 		}
 		return out
 	}
-	idx := "(1 + phi((1 + phi@)|-1))"
+	gsOf := func(a olAtom) []string { return c.guardStrs(a.I.Block()) }
 	// ---- S part
 	oS := r.Ob("C03.R4", "settings-part").At(m.Pos())
-	setW := find(func(w bufWrite) bool {
-		return w.Text == "%d:%d" && len(w.Args) == 2 && strings.HasPrefix(w.Args[0], "p0.Settings[")
-	})
-	if oS.Check(len(setW) == 1, "expected one id:value write for settings, found %d", len(setW)) {
-		w := setW[0]
-		oS.AtI(w.I)
-		oS.Check(w.Args[0] == "p0.Settings["+idx+"].Id" && w.Args[1] == "p0.Settings["+idx+"].Val", "settings are rendered from (%s, %s), want (s.Id, s.Val) of every recorded setting in order", w.Args[0], w.Args[1])
-		oS.Check(inLoop(w.I.Block()), "settings write is not in the loop over f.Settings")
-		bad := onlyGuards(c, w.I.Block(), "+("+idx+" < builtin.len(p0.Settings))")
+	setW := append(find(symSId), find(symSVal)...)
+	oS.Check(len(setW) >= 2, "settings are not rendered as id:value of every recorded setting (s.Id, s.Val) in order")
+	for _, a := range setW {
+		oS.AtI(a.I)
+		oS.Check(inLoop(a.I.Block()), "settings write is not in the loop over f.Settings")
+		bad := onlyGuards(c, a.I.Block(), "+("+idx+" < builtin.len(p0.Settings))")
 		oS.Check(bad == "", "a setting is rendered only under %s", bad)
 	}
-	semi := find(func(w bufWrite) bool { return w.Const && w.Text == ";" })
-	if oS.Check(len(semi) == 1, "expected one ';' separator write, found %d", len(semi)) {
-		gs := c.guardStrs(semi[0].I.Block())
-		oS.AtI(semi[0].I).Check(hasGuard(gs, "+("+idx+" != 0)") && hasGuard(gs, "+("+idx+" < builtin.len(p0.Settings))") && len(gs) == 2, "';' is written under %v, want exactly `i != 0` inside the settings loop", gs)
-		if len(setW) == 1 {
-			oS.Check(reachesAfter(semi[0].I, setW[0].I), "';' is written after the setting instead of before it")
-		}
+	semi := find("';'")
+	oS.Check(len(semi) >= 1, "no ';' separator is written")
+	for _, a := range semi {
+		gs := gsOf(a)
+		oS.AtI(a.I).Check(hasGuard(gs, "+("+idx+" != 0)") && hasGuard(gs, "+("+idx+" < builtin.len(p0.Settings))") && len(gs) == 2, "';' is written under %v, want exactly `i != 0` inside the settings loop", gs)
 	}
-	// first pipe right after the settings loop
-	p1 := find(func(w bufWrite) bool {
-		return w.Const && w.Text == "|" && !hasGuard(c.guardStrs(w.I.Block()), "-(0 == phi(builtin.len(p0.Priorities)|p1))")
-	})
 	// ---- WU part
 	oW := r.Ob("C03.R4", "window-update-part").At(m.Pos())
-	wu := find(func(w bufWrite) bool { return strings.Contains(w.Text, "%02d") })
-	if oW.Check(len(wu) == 1, "expected one %%02d write for the window update, found %d", len(wu)) {
-		w := wu[0]
-		oW.AtI(w.I)
-		oW.Check(w.Text == "%02d|" && len(w.Args) == 1 && w.Args[0] == "p0.WindowUpdateIncrement", "window update is rendered as %q of %v, want \"%%02d|\" of f.WindowUpdateIncrement", w.Text, w.Args)
-		oW.Check(len(guardsOf(w.I.Block())) <= 1 && !inLoop(w.I.Block()), "window update write is conditional or repeated; guards %v", c.guardStrs(w.I.Block()))
-		if oW.Check(len(p1) == 1, "expected one bare '|' after the settings, found %d", len(p1)) {
-			oW.Check(instrDominates(p1[0].I, w.I) && !inLoop(p1[0].I.Block()), "the settings/window separator does not precede the window update")
-			for _, s := range setW {
-				oW.Check(reachesAfter(s.I, p1[0].I) && !reachesAfter(p1[0].I, s.I), "settings can be written after the first separator")
-			}
-		}
+	wu := find(symWU)
+	oW.Check(len(wu) >= 1, "the window update is not rendered as %%02d of f.WindowUpdateIncrement")
+	for _, a := range wu {
+		oW.AtI(a.I).Check(!inLoop(a.I.Block()), "window update write is repeated")
 	}
 	// ---- P part
 	oP := r.Ob("C03.R4", "priority-part").At(m.Pos())
-	minE := "phi(builtin.len(p0.Priorities)|p1)"
-	zero := find(func(w bufWrite) bool { return w.Const && w.Text == "0|" })
-	if oP.Check(len(zero) == 1, "expected one \"0|\" write, found %d", len(zero)) {
-		gs := c.guardStrs(zero[0].I.Block())
-		oP.AtI(zero[0].I).Check(hasGuard(gs, "+(0 == "+minE+")"), "\"0|\" is written under %v, want `min(len(Priorities), max) == 0`", gs)
-	}
 	// the min: an If on len(Priorities) < max selecting len on its true edge
 	okMin := false
 	eachInstr(m, func(i ssa.Instruction) {
@@ -394,67 +416,75 @@ func c03r4(r *R) {
 		}
 	})
 	oP.Check(okMin, "the number of priority entries rendered is not min(len(f.Priorities), maxPriorityFrames) (phi of the two under `len < max`)")
-	pIdx := "p0.Priorities[" + idx + "]"
-	sid := find(func(w bufWrite) bool { return w.Text == "%d:" })
-	if oP.Check(len(sid) == 1, "expected one stream-id write, found %d", len(sid)) {
-		oP.AtI(sid[0].I).Check(len(sid[0].Args) == 1 && sid[0].Args[0] == pIdx+".StreamId", "priority stream id is rendered from %v, want p.StreamId of f.Priorities[:min][i]", sid[0].Args)
+	inPrioLoop := func(gs []string) bool {
+		return hasGuardContaining(gs, "+", " < "+minE+")") && hasGuard(gs, "-(0 == "+minE+")")
 	}
-	dw := find(func(w bufWrite) bool {
-		return w.Text == "%d:%d" && len(w.Args) == 2 && strings.Contains(w.Args[0], "Priorities")
-	})
-	if oP.Check(len(dw) == 1, "expected one dependency:weight write, found %d", len(dw)) {
-		oP.AtI(dw[0].I).Check(dw[0].Args[0] == pIdx+".StreamDep" && dw[0].Args[1] == "(1 + "+pIdx+".Weight)", "dependency:weight is rendered from (%s, %s), want (p.StreamDep, int(p.Weight)+1)", dw[0].Args[0], dw[0].Args[1])
-		oP.Check(len(dw[0].Types) == 2 && dw[0].Types[1] == "int", "weight+1 is computed in type %v: in uint8 arithmetic wire weight 255 (meaning 256) wraps to 0", dw[0].Types)
-	}
-	ex1 := find(func(w bufWrite) bool { return w.Const && w.Text == "1:" })
-	ex0 := find(func(w bufWrite) bool { return w.Const && w.Text == "0:" })
-	if oP.Check(len(ex1) == 1 && len(ex0) == 1, "expected one \"1:\" and one \"0:\" write") {
-		oP.AtI(ex1[0].I, ex0[0].I)
-		oP.Check(hasGuard(c.guardStrs(ex1[0].I.Block()), "+"+pIdx+".Exclusive"), "\"1:\" is not on the true edge of p.Exclusive")
-		oP.Check(hasGuard(c.guardStrs(ex0[0].I.Block()), "-"+pIdx+".Exclusive"), "\"0:\" is not on the false edge of p.Exclusive")
-	}
-	if len(sid) == 1 && len(dw) == 1 && len(ex1) == 1 {
-		oP.Check(reachesAfter(sid[0].I, ex1[0].I) && reachesAfter(ex1[0].I, dw[0].I) && instrDominates(sid[0].I, dw[0].I), "priority entry parts are not written in the order stream:exclusive:dependency:weight")
-	}
-	comma := find(func(w bufWrite) bool {
-		return w.Const && w.Text == "," && hasGuardContaining(c.guardStrs(w.I.Block()), "+", " < "+minE+")") && hasGuard(c.guardStrs(w.I.Block()), "-(0 == "+minE+")")
-	})
-	if oP.Check(len(comma) == 1, "expected one ',' between priority entries, found %d", len(comma)) {
-		gs := c.guardStrs(comma[0].I.Block())
-		oP.AtI(comma[0].I).Check(hasGuard(gs, "+("+idx+" != 0)"), "priority ',' is written under %v, want `i != 0`", gs)
-		if len(sid) == 1 {
-			oP.Check(reachesAfter(comma[0].I, sid[0].I), "',' is written after the entry")
+	prioAtoms := append(append(find(symPSid), find(symPDep)...), find(symPW)...)
+	oP.Check(len(prioAtoms) >= 3, "priority entries are not rendered as p.StreamId : p.Exclusive : p.StreamDep : int(p.Weight)+1 of f.Priorities[:min][i]")
+	for _, a := range prioAtoms {
+		gs := gsOf(a)
+		oP.AtI(a.I).Check(inPrioLoop(gs), "a priority entry is rendered under %v, want inside the loop over f.Priorities[:min] with min != 0", gs)
+		for _, g := range gs {
+			oP.Check(g == canonStr("-(0 == "+minE+")") || strings.HasSuffix(g, " < "+minE+")") || strings.Contains(g, "builtin.len(p0.Settings)"), "a priority entry is additionally conditional on %s", g)
 		}
 	}
-	p2 := find(func(w bufWrite) bool {
-		return w.Const && w.Text == "|" && hasGuardContaining(c.guardStrs(w.I.Block()), "-", "(0 == "+minE+")")
-	})
-	oP.Check(len(p2) == 1, "expected the closing '|' of a non-empty priority list, found %d", len(p2))
+	for _, w := range ws {
+		for k, a := range w.Args {
+			if a == "(1 + "+pIdx+".Weight)" {
+				oP.AtI(w.I).Check(k < len(w.Types) && w.Types[k] == "int", "weight+1 is computed in type %v: in uint8 arithmetic wire weight 255 (meaning 256) wraps to 0", w.Types)
+			}
+		}
+	}
+	nZero, nEx0, nEx1 := 0, 0, 0
+	for _, a := range find("'0'") {
+		gs := gsOf(a)
+		switch {
+		case hasGuard(gs, "-"+pIdx+".Exclusive") && inPrioLoop(gs):
+			nEx0++
+		case hasGuard(gs, "+(0 == "+minE+")"):
+			nZero++
+		default:
+			oP.AtI(a.I).Fail("a '0' is written under %v: neither the exclusive bit of a non-exclusive priority nor the placeholder for `min(len(Priorities), max) == 0`", gs)
+		}
+	}
+	for _, a := range find("'1'") {
+		gs := gsOf(a)
+		if oP.AtI(a.I).Check(hasGuard(gs, "+"+pIdx+".Exclusive") && inPrioLoop(gs), "a '1' is written under %v, want the true edge of p.Exclusive", gs) {
+			nEx1++
+		}
+	}
+	oP.Check(nZero >= 1 && nEx0 >= 1 && nEx1 >= 1, "missing one of: '0' placeholder for no priorities (%d), exclusive bit '0' (%d), exclusive bit '1' (%d)", nZero, nEx0, nEx1)
 	// ---- PS part
 	oH := r.Ob("C03.R4", "pseudo-header-part").At(m.Pos())
-	hb := find(func(w bufWrite) bool { return w.Byte != "" })
-	name := "p0.Headers[" + idx + "].Name"
-	if oH.Check(len(hb) == 1, "expected one WriteByte for pseudo-header initials, found %d", len(hb)) {
-		gs := c.guardStrs(hb[0].I.Block())
-		oH.AtI(hb[0].I).Check(hb[0].Byte == name+"[1]", "pseudo-header letter is %s, want h.Name[1]", hb[0].Byte)
-		oH.Check(hasGuard(gs, "+(2 <= builtin.len("+name+"))") && hasGuard(gs, "+(58 == "+name+"[0])"), "pseudo-header letter is written under %v, want len(Name) >= 2 && Name[0] == ':'", gs)
+	hb := find(symH)
+	oH.Check(len(hb) >= 1, "no pseudo-header initial (h.Name[1]) is written")
+	for _, a := range hb {
+		gs := gsOf(a)
+		oH.AtI(a.I).Check(hasGuard(gs, "+(2 <= builtin.len("+name+"))") && hasGuard(gs, "+(58 == "+name+"[0])"), "pseudo-header letter is written under %v, want len(Name) >= 2 && Name[0] == ':'", gs)
 		for _, g := range gs {
-			ok := g == "+(2 <= builtin.len("+name+"))" || g == "+(58 == "+name+"[0])" || strings.Contains(g, "builtin.len(p0.Headers)") || strings.Contains(g, "builtin.len(p0.Settings)")
+			ok := g == "+(2 <= builtin.len("+name+"))" || g == "+(58 == "+name+"[0])" || strings.Contains(g, "builtin.len(p0.Headers)") || strings.Contains(g, "builtin.len(p0.Settings)") || strings.Contains(g, minE)
 			oH.Check(ok, "pseudo-header letter additionally conditional on %s", g)
 		}
-		for _, x := range append(append([]bufWrite{}, p2...), zero...) {
-			oH.Check(reachesAfter(x.I, hb[0].I) && !reachesAfter(hb[0].I, x.I), "pseudo-header letters can be written before the priority part is closed")
+	}
+	nPC, nHC := 0, 0
+	for _, a := range find("','") {
+		gs := gsOf(a)
+		switch {
+		case inPrioLoop(gs):
+			nPC++
+			oP.AtI(a.I).Check(hasGuard(gs, "+("+idx+" != 0)"), "priority ',' is written under %v, want `i != 0`", gs)
+		case hasGuardContaining(gs, "+", " < builtin.len(p0.Headers))"):
+			nHC++
+			oH.AtI(a.I).Check(hasGuard(gs, "+phi(false|phi@|true)") && hasGuard(gs, "+(58 == "+name+"[0])"), "pseudo-header ',' is written under %v, want `a pseudo-header was already written`", gs)
+		default:
+			o.AtI(a.I).Fail("a ',' is written under %v: neither between priority entries nor between pseudo-header letters", gs)
 		}
 	}
-	hc := find(func(w bufWrite) bool {
-		return w.Const && w.Text == "," && hasGuardContaining(c.guardStrs(w.I.Block()), "+", " < builtin.len(p0.Headers))")
-	})
-	if oH.Check(len(hc) == 1, "expected one ',' between pseudo-header letters, found %d", len(hc)) {
-		gs := c.guardStrs(hc[0].I.Block())
-		oH.AtI(hc[0].I).Check(hasGuard(gs, "+phi(false|phi@|true)") && hasGuard(gs, "+(58 == "+name+"[0])"), "pseudo-header ',' is written under %v, want `a pseudo-header was already written`", gs)
-		if len(hb) == 1 {
-			oH.Check(reachesAfter(hc[0].I, hb[0].I), "',' is written after the letter")
-		}
+	oP.Check(nPC >= 1, "no ',' between priority entries")
+	oH.Check(nHC >= 1, "no ',' between pseudo-header letters")
+	// '|' never depends on data
+	for _, a := range find("'|'") {
+		o.AtI(a.I).Check(!inLoop(a.I.Block()), "a '|' is written inside a loop")
 	}
 	// result is the buffer's content
 	eachInstr(m, func(i ssa.Instruction) {
@@ -463,7 +493,7 @@ func c03r4(r *R) {
 		}
 	})
 	// total number of writes frozen as vacuity guard
-	r.Ob("C03.R4", "instances").Check(len(ws) >= 12, "expected >= 12 buffer writes in Marshal, found %d", len(ws))
+	r.Ob("C03.R4", "instances").Check(len(atoms) >= 20, "expected >= 20 output atoms in Marshal, found %d", len(atoms))
 }
 
 func c03r5(r *R) {
